@@ -134,7 +134,15 @@ inline std::vector<MValue> inputLeaves() {
   f.s = "1.5";
   MValue one = MValue::integer(1);
   one.s = "1";
-  return {MValue::null(), MValue::boolean(true), one, MValue::str("s"), f};
+  // bin / ext values exist in MessagePack only (inputs containing them are not rendered as JSON)
+  return {MValue::null(), MValue::boolean(true), one, MValue::str("s"), f, MValue::raw(refmp::makeBin(std::string("\x01\x02", 2))),
+          MValue::raw(refmp::makeExt(5, "x"))};
+}
+inline bool hasRaw(const MValue& m) {
+  if (m.kind == MValue::Raw) return true;
+  for (auto& e : m.a) if (hasRaw(e)) return true;
+  for (auto& kv : m.o) if (hasRaw(kv.second)) return true;
+  return false;
 }
 inline std::vector<MValue> filterLeaves() {
   return {MValue::boolean(true), MValue::boolean(false), MValue::null(), MValue::integer(0), MValue::integer(1), MValue::integer(2),
@@ -187,11 +195,12 @@ inline void run(Ctx& C) {
     if (C.expired()) return;
     if (!C.take()) return;
     refjson::PrintOpt po;
-    std::string json = refjson::printDoc(in, po);
+    std::string json = hasRaw(in) ? std::string() : refjson::printDoc(in, po);
     std::string mp = refmp::encode(in);
-    C.begin("filter-input:" + vis(json));
+    C.begin("filter-input:" + (hasRaw(in) ? "msgpack:" + hex(mp) : vis(json)));
     if (in.kind == MValue::Arr || in.kind == MValue::Obj) C.nontrivial();
     for (int fmt = 0; fmt < 2; fmt++) {
+      if (fmt == 0 && hasRaw(in)) continue;
       const std::string& input = fmt ? mp : json;
       RunResult U = runOnce(fmt != 0, input, nullptr, NONE);
       if (U.code != DeserializationError::Ok) {
@@ -274,7 +283,7 @@ inline void run(Ctx& C) {
   C.metrics["pairs"] += double(pairs);
   C.outcome("pairs");
   C.outcome("identity");
-  C.bound("inputs: all trees <= " + std::to_string(Ni) + " nodes over 5 leaves and 5 keys, as JSON and as MessagePack; filters: all " +
+  C.bound("inputs: all trees <= " + std::to_string(Ni) + " nodes over 5 leaves (+ a bin and an ext leaf for MessagePack) and 5 keys, as JSON and as MessagePack; filters: all " +
           std::to_string(filters.size()) + " trees <= " + std::to_string(Nf) + " nodes over 8 leaves and 3 keys; both Filter(JsonDocument&) and Filter(JsonVariantConst); "
           "identity of filter true on all byte strings of the malformed alphabet and all 1-2 byte MessagePack strings");
 }
